@@ -142,6 +142,7 @@ def _run_one(h, td, log_dir):
     if res["status"] == "violation_candidate":
         again = _kani(h, td, log_dir, playback=True)
         res["concrete_vals"] = again["concrete_vals"]
+        res["playbacks"] = again.get("playbacks", [])
         res["playback_wall_s"] = again["wall_s"]
     return res
 
@@ -245,23 +246,29 @@ def parse_log(text):
     m = re.search(r"Verification Time: ([0-9.]+)s", text)
     if m:
         res["verification_s"] = float(m.group(1))
-    # concrete playback: the printed unit test carries the recorded values
-    vals = []
-    in_vals = False
+    # concrete playback: Kani prints one unit test per satisfied cover and per failed check; keep those of failed
+    # checks (the comment `Check for `<kind>`: "<description>"` above each test says which it is)
+    playbacks = []
+    kind, desc, vals, in_vals = None, None, [], False
     for line in text.splitlines():
+        m = re.match(r"^/// Check for `(\w+)`: (.*)$", line)
+        if m:
+            kind, desc = m.group(1), m.group(2).strip('"')
+            continue
         if "let concrete_vals" in line:
-            in_vals = True
-            vals = []
+            in_vals, vals = True, []
             continue
         if in_vals:
-            s = line.strip()
-            if s.startswith("vec!["):
-                body = s[len("vec!["):s.rindex("]")]
+            t = line.strip()
+            if t.startswith("vec!["):
+                body = t[len("vec!["):t.rindex("]")]
                 vals.append([int(x) for x in body.split(",") if x.strip()])
-            elif s.startswith("];"):
+            elif t.startswith("];"):
                 in_vals = False
-                res["concrete_vals"] = vals
-                break
+                playbacks.append({"kind": kind, "desc": desc, "vals": vals})
+    failing = [p for p in playbacks if p["kind"] != "cover"]
+    res["playbacks"] = failing
+    res["concrete_vals"] = failing[0]["vals"] if failing else None
     return res
 
 
